@@ -3,13 +3,13 @@ CONSTANTS
   Hashes = {0}
   Ids = {1}
   Cap = 2
-  LBlks = {0, 1, 2, 3, 4}
-  DataBlks = {1, 2, 3, 4, 5}
+  LBlks = {0, 1, 2, 3}
+  DataBlks = {1, 2, 3, 4}
   MetaBlks = {8, 9}
   InoExt = 2
   NDirect = 2
   MaxDamage = 2
-  MaxRuns = 2
+  MaxRuns = 1
   DevRehashDropsCollision = FALSE
   DevRehashDropsBoundary = FALSE
   DevRebuildDropsLast = FALSE
